@@ -3,7 +3,7 @@
 the tallies and warnings."""
 import json, os, subprocess, sys
 from concurrent.futures import ThreadPoolExecutor
-props = sys.argv[1:] or ["C%02d" % k for k in range(1, 21) if k != 6]
+props = sys.argv[1:] or ["C%02d" % k for k in range(1, 21)]
 def one(p):
     env = dict(os.environ, NSSA_EVID_DIR="/tmp/nssa_sweep_evid")
     r = subprocess.run(["/verif/check", p, "--tier", "thorough"], capture_output=True, text=True, env=env, timeout=3000)
